@@ -431,9 +431,10 @@ func c17ORForgery(r *mon.Run, rng *rand.Rand) {
 			rf++
 		}
 		desc := fmt.Sprintf("%d^%d mod %d", a, b, n)
+		shifted := false
 		run := func(res int64, step int) (ok bool, died bool) {
-			inflight(fmt.Sprintf("OR-forgery %s = %d, step %d", desc, res, step))
-			pv, stack := mon.Try(func() { ok = f.Run(a, b, n, res, bitlen, step) })
+			inflight(fmt.Sprintf("OR-forgery %s = %d, step %d shifted=%v", desc, res, step, shifted))
+			pv, stack := mon.Try(func() { ok = f.RunShifted(a, b, n, res, bitlen, step, shifted) })
 			inflight("")
 			if pv != nil {
 				r.PanicSeen(mon.PanicSite(stack))
@@ -471,6 +472,22 @@ func c17ORForgery(r *mon.Run, rng *rand.Rand) {
 					map[string]any{"case": desc, "step": k, "steps": steps})
 			}
 		}
+		// the same with the simulated sub-challenge shifted by a multiple of the group order so that the split holds on the
+		// low 256 bits (a sub-challenge acts only as an exponent in a group of that order)
+		shifted = true
+		for _, k := range []int{steps - 1, 0, order[0]} {
+			ok, _ := run(rt, k)
+			r.Eval("or-forgery", outcome(ok, nil))
+			r.Distinct("or-forgery-shifted", desc, k)
+			if ok {
+				r.Violation("C17/or-composition-accepted-with-free-subchallenges/shifted-by-group-order", fmt.Sprintf("exponentiation sub-proof accepted although step %d of %d has both OR branches simulated, one sub-challenge shifted by a multiple of the group order (%s)", k, steps, desc),
+					map[string]any{"case": desc, "step": k, "steps": steps})
+			}
+		}
+		if okS, _ := run(rf, steps-1); okS {
+			r.Violation("C17/false-exponentiation-statement-accepted", fmt.Sprintf("the false statement %s = %d (true %d) is accepted with the last step simulated and a sub-challenge shifted by a multiple of the group order", desc, rf, rt), map[string]any{"case": desc, "claimed": rf, "true": rt})
+		}
+		shifted = false
 		ok, _ := run(rf, steps-1)
 		r.Eval("or-forgery", outcome(ok, nil))
 		r.Distinct("or-forgery-false", desc)
